@@ -1,5 +1,7 @@
 (* C12/NoGapMulti.v — round numbering for one feeder of a params set with ANY number of feeders (pairwise different
-   ids and tokens), all histories of single-message transactions: the other feeders do not disturb it. *)
+   ids), all histories of single-message transactions: the other feeders do not disturb it. Feeders that serve the SAME
+   token are allowed as long as they are not responsible at the same time (co_ok): the ones that have ended are quiet
+   (no round or a closed one), the ones that start after the horizon H have no round yet. *)
 From Coq Require Import List String Bool ZArith Lia.
 From Exo Require Import Base.Util Oracle.Model Oracle.Lemmas C12.Proofs C12.NoGap C12.Retention C13.Budget.
 Import ListNotations.
@@ -8,7 +10,6 @@ Local Open Scope Z_scope.
 Record mg_hyp (p : params) (f : feeder) : Prop := mkMGH {
   mh_in : In f (p_feeders p);
   mh_ids : NoDup (map f_id (p_feeders p));
-  mh_toks : NoDup (map f_token (p_feeders p));
   mh_mn : 1 <= p_max_nonce p;
   mh_int : 2 * p_max_nonce p <= f_interval f;
   mh_start : 1 <= f_start f;
@@ -32,16 +33,72 @@ Qed.
 
 Lemma get_feeder_f p f : mg_hyp p f -> get_feeder p (f_id f) = Some f.
 Proof.
-  intros [Hin Hids _ _ _ _ _]. unfold get_feeder.
+  intros [Hin Hids _ _ _ _]. unfold get_feeder.
   destruct (find (fun g => f_id g =? f_id f) (p_feeders p)) as [g|] eqn:Hf.
   - apply find_some in Hf. destruct Hf as [H1 H2]. apply Z.eqb_eq in H2. f_equal. exact (nodup_map_inj f_id _ g f Hids H1 Hin H2).
   - exfalso. pose proof (find_none _ _ Hf f Hin) as H. simpl in H. rewrite Z.eqb_refl in H. discriminate.
 Qed.
 
-Lemma other_feeder p f id g : mg_hyp p f -> get_feeder p id = Some g -> id <> f_id f -> f_token g <> f_token f.
+(* feeders sharing f's token: ended and quiet, or not started before the horizon H and without a round *)
+Definition co_ok (p : params) (f : feeder) (H b : Z) (m : mem) : Prop :=
+  forall g, In g (p_feeders p) -> f_id g <> f_id f -> f_token g = f_token f ->
+    (feeder_ended g b = true /\ match zget (m_rounds m) (f_id g) with None => True | Some r => r_status r = 2 end) \/
+    (H < f_start g /\ zget (m_rounds m) (f_id g) = None).
+
+Lemma other_feeder p f H b m id g r :
+  co_ok p f H b m -> get_feeder p id = Some g -> id <> f_id f ->
+  zget (m_rounds m) id = Some r -> r_status r = 1 -> f_token g <> f_token f.
 Proof.
-  intros Hh Hg Hne. destruct (get_feeder_in _ _ _ Hg) as [Hin Hid]. intro E.
-  assert (g = f) by exact (nodup_map_inj f_token _ g f (mh_toks _ _ Hh) Hin (mh_in _ _ Hh) E). subst g. congruence.
+  intros Hco Hg Hne Hr Hst E. destruct (get_feeder_in _ _ _ Hg) as [Hin Hid]. subst id.
+  destruct (Hco g Hin Hne E) as [[_ Hq]|[_ Hq]]; rewrite Hr in Hq; [lia | discriminate].
+Qed.
+
+(* the rounds of a memory after some steps: every entry is unchanged, or was there and is closed now *)
+Definition rounds_step (R R' : list (Z * round)) : Prop :=
+  forall k, zget R' k = zget R k \/ (exists r r', zget R k = Some r /\ zget R' k = Some r' /\ r_status r' = 2).
+
+Lemma rounds_step_refl R : rounds_step R R. Proof. intro k. left. reflexivity. Qed.
+
+Lemma rounds_step_trans A B C : rounds_step A B -> rounds_step B C -> rounds_step A C.
+Proof.
+  intros H1 H2 k. destruct (H2 k) as [E|[r [r' [E1 [E2 E3]]]]].
+  - rewrite E. exact (H1 k).
+  - destruct (H1 k) as [E0|[r0 [r0' [E4 [E5 E6]]]]].
+    + right. exists r, r'. rewrite <- E0. repeat split; assumption.
+    + right. exists r0, r'. repeat split; assumption.
+Qed.
+
+Lemma co_ok_rounds_step p f H b m m' :
+  rounds_step (m_rounds m) (m_rounds m') -> co_ok p f H b m -> co_ok p f H b m'.
+Proof.
+  intros Hs Hco g Hin Hne Htok. destruct (Hco g Hin Hne Htok) as [[He Hq]|[Hh Hq]].
+  - left. split; [exact He|]. destruct (Hs (f_id g)) as [E|[r [r' [E1 [E2 E3]]]]]; [rewrite E; exact Hq | rewrite E2; exact E3].
+  - right. split; [exact Hh|]. destruct (Hs (f_id g)) as [E|[r [r' [E1 [E2 E3]]]]]; [rewrite E; exact Hq | rewrite Hq in E1; discriminate].
+Qed.
+
+Lemma create_price_rounds_step p now s m x s' m' res :
+  create_price p now s m x = (s', m', res) -> rounds_step (m_rounds m) (m_rounds m').
+Proof.
+  intro H. destruct res; try (destruct (create_price_nonfinal _ _ _ _ _ _ _ _ H ltac:(discriminate)) as [_ E]; rewrite E; apply rounds_step_refl).
+  destruct (create_price_final_shape _ _ _ _ _ _ _ H) as [price [r [f0 [Hr [_ [_ [Hm' _]]]]]]].
+  intro k. rewrite Hm', zget_zset. destruct (k =? m_feeder x) eqn:E; [|left; reflexivity].
+  apply Z.eqb_eq in E. subst k. right. eexists. eexists. split; [exact Hr|]. split; reflexivity.
+Qed.
+
+Lemma run_msgs_rounds_step p now : forall l s m so m', run_msgs p now s m l = (so, m') -> rounds_step (m_rounds m) (m_rounds m').
+Proof.
+  induction l as [|x r IH]; intros s m so m' H; simpl in H; [inversion H; apply rounds_step_refl|].
+  destruct (create_price p now s m x) as [[s1 m1] res] eqn:Hc.
+  pose proof (create_price_rounds_step _ _ _ _ _ _ _ _ Hc) as S1.
+  destruct res; try (inversion H; subst; exact S1); exact (rounds_step_trans _ _ _ S1 (IH _ _ _ _ H)).
+Qed.
+
+Lemma deliver_tx_rounds_step p now st t st' a ok :
+  deliver_tx p now st t = (st', a, ok) -> rounds_step (m_rounds (st_mem st)) (m_rounds (st_mem st')).
+Proof.
+  unfold deliver_tx. destruct (ante p (st_store st) t) as [s1|]; [|intro H; inversion H; apply rounds_step_refl].
+  destruct (run_msgs p now s1 (st_mem st) (t_msgs t)) as [[s2|] m2] eqn:Hr; intro H; inversion H; subst; simpl;
+    exact (run_msgs_rounds_step _ _ _ _ _ _ _ Hr).
 Qed.
 
 (* ---- stores: other tokens are not touched ---- *)
@@ -76,10 +133,10 @@ Lemma mg_inv_same p f b st st' :
   mg_inv p f b st -> mg_inv p f b st'.
 Proof. intros Hp Hr H. unfold mg_inv in *. unfold get_tp in *. rewrite Hp, Hr. exact H. Qed.
 
-Lemma mg_tx_keeps_inv p f b now st t x st' a ok :
-  mg_hyp p f -> mg_inv p f b st -> t_msgs t = [x] -> deliver_tx p now st t = (st', a, ok) -> mg_inv p f b st'.
+Lemma mg_tx_keeps_inv p f H0 b now st t x st' a ok :
+  mg_hyp p f -> co_ok p f H0 b (st_mem st) -> mg_inv p f b st -> t_msgs t = [x] -> deliver_tx p now st t = (st', a, ok) -> mg_inv p f b st'.
 Proof.
-  intros Hh Hinv Hx H. unfold deliver_tx in H.
+  intros Hh Hco Hinv Hx H. unfold deliver_tx in H.
   destruct (ante p (st_store st) t) as [s1|] eqn:Ha; [|inversion H; subst; exact Hinv].
   pose proof (ante_prices _ _ _ _ Ha) as Hp1. rewrite Hx in H. simpl in H.
   destruct (create_price p now s1 (st_mem st) x) as [[s' m'] res] eqn:Hc.
@@ -117,7 +174,7 @@ Proof.
     split; [right; reflexivity|]. split; [|intro; discriminate].
     rewrite Hn2. unfold get_tp. rewrite Hp1. fold (get_tp (st_store st) (f_token f)). lia.
   - (* the message completes the round of another feeder: other key, other token *)
-    pose proof (other_feeder _ _ _ _ Hh Hf Nfid) as Htok.
+    pose proof (other_feeder _ _ _ _ _ _ _ _ Hco Hf Nfid Hr Hst) as Htok.
     assert (Hsame : get_tp s' (f_token f) = get_tp s1 (f_token f)).
     { match type of Hs' with _ = s_prices (if ?c then ?a else ?g) => destruct c end; rewrite (Hgt _ Hs');
         [apply append_price_other | apply grow_round_other]; intro E; apply Htok; symmetry; exact E. }
@@ -188,13 +245,15 @@ Section SealFold.
   (* effect of one step on the entry of f and on the number of occurrences of f's token among the failed *)
   Lemma seal_step_other R F g r :
     g <> f_id f -> inc_keys R ->
+    (forall f0, get_feeder p g = Some f0 -> r_status r = 1 -> f_token f0 <> f_token f) ->
     let res := seal_one_rf p h force (R, F) (g, r) in
     inc_keys (fst res) /\ zget (fst res) (f_id f) = zget R (f_id f) /\ cnt (f_token f) (snd res) = cnt (f_token f) F.
   Proof.
-    intros Hne Hi. unfold seal_one_rf. destruct (r_status r =? 1); [|simpl; auto].
+    intros Hne Hi Hother. unfold seal_one_rf. destruct (r_status r =? 1) eqn:Est; [|simpl; auto].
+    apply Z.eqb_eq in Est.
     destruct (get_feeder p g) as [f0|] eqn:Hg; [|simpl; auto].
     destruct (feeder_ended f0 h || (p_max_nonce p <=? usub h (r_base r)) || force); [|simpl; auto].
-    pose proof (other_feeder _ _ _ _ Hh Hg Hne) as Htok. simpl.
+    pose proof (Hother f0 eq_refl Est) as Htok. simpl.
     assert (Hc : cnt (f_token f) (F ++ [f_token f0]) = cnt (f_token f) F).
     { rewrite cnt_app. unfold cnt at 2. simpl. destruct (f_token f =? f_token f0) eqn:E; [apply Z.eqb_eq in E; congruence|].
       unfold zlen. simpl. lia. }
@@ -228,6 +287,7 @@ Section SealFold.
 
   Lemma seal_fold_f : forall l R F,
     inc_keys R -> inc_keys l ->
+    (forall g r f0, In (g, r) l -> g <> f_id f -> get_feeder p g = Some f0 -> r_status r = 1 -> f_token f0 <> f_token f) ->
     (forall r, In (f_id f, r) l -> zget R (f_id f) = Some r) ->
     let res := fold_left (seal_one_rf p h force) l (R, F) in
     inc_keys (fst res) /\
@@ -235,7 +295,7 @@ Section SealFold.
     (forall r, In (f_id f, r) l -> zget (fst res) (f_id f) = fst (seal_self r) /\
                                    cnt (f_token f) (snd res) = cnt (f_token f) F + snd (seal_self r)).
   Proof.
-    induction l as [|[g r0] t IH]; intros R F Hi Hl Hz.
+    induction l as [|[g r0] t IH]; intros R F Hi Hl Hco Hz.
     - simpl. split; [exact Hi|]. split; [intros _; split; reflexivity | intros r []].
     - cbv zeta. rewrite fold_step. destruct Hl as [Hlt Hl'].
       destruct (Z.eq_dec g (f_id f)) as [E|Hne].
@@ -243,15 +303,15 @@ Section SealFold.
         destruct (seal_step_self R F r0 Hi Hz0) as [S1 [S2 S3]].
         destruct (seal_one_rf p h force (R, F) (f_id f, r0)) as [R1 F1] eqn:Hstep. simpl in S1, S2, S3.
         assert (Hnot : forall r, ~ In (f_id f, r) t) by (intros r Hin; pose proof (Hlt _ _ Hin); lia).
-        destruct (IH R1 F1 S1 Hl' (fun r Hin => False_ind _ (Hnot r Hin))) as [I1 [I2 _]].
+        destruct (IH R1 F1 S1 Hl' (fun g' r' f0 Hin => Hco g' r' f0 (or_intror Hin)) (fun r Hin => False_ind _ (Hnot r Hin))) as [I1 [I2 _]].
         destruct (I2 Hnot) as [J1 J2].
         split; [exact I1|]. split; [intro Hno; exfalso; exact (Hno r0 (or_introl eq_refl))|].
         intros r [Hin|Hin]; [inversion Hin; subst r; rewrite J1, J2; split; [exact S2 | exact S3] | exfalso; exact (Hnot r Hin)].
-      + destruct (seal_step_other R F g r0 Hne Hi) as [S1 [S2 S3]].
+      + destruct (seal_step_other R F g r0 Hne Hi (fun f0 Hg Hs => Hco g r0 f0 (or_introl eq_refl) Hne Hg Hs)) as [S1 [S2 S3]].
         destruct (seal_one_rf p h force (R, F) (g, r0)) as [R1 F1] eqn:Hstep. simpl in S1, S2, S3.
         assert (Hz1 : forall r, In (f_id f, r) t -> zget R1 (f_id f) = Some r).
         { intros r Hin. rewrite S2. apply Hz. right. exact Hin. }
-        destruct (IH R1 F1 S1 Hl' Hz1) as [I1 [I2 I3]].
+        destruct (IH R1 F1 S1 Hl' (fun g' r' f0 Hin => Hco g' r' f0 (or_intror Hin)) Hz1) as [I1 [I2 I3]].
         split; [exact I1|]. split.
         * intro Hno. assert (Hno' : forall r, ~ In (f_id f, r) t) by (intros r Hin; apply (Hno r); right; exact Hin).
           destruct (I2 Hno') as [J1 J2]. rewrite J1, J2, S2, S3. split; reflexivity.
@@ -375,7 +435,7 @@ Definition stf (f : feeder) (st : state) : state :=
           (mkMem (m_vals (st_mem st)) (m_total (st_mem st)) (sing (f_id f) (zget (m_rounds (st_mem st)) (f_id f))) []) 0.
 
 Lemma ng_hyp_pf p f : mg_hyp p f -> ng_hyp (pf p f) f.
-Proof. intros [H1 H2 H3 H4 H5 H6 H7]. constructor; simpl; try assumption. reflexivity. Qed.
+Proof. intros [H1 H2 H4 H5 H6 H7]. constructor; simpl; try assumption. reflexivity. Qed.
 
 Lemma mg_to_ng p f b st : mg_inv p f b st -> ng_inv (pf p f) f b (stf f st).
 Proof.
@@ -427,15 +487,15 @@ Proof.
   - pose proof (get_feeder_f _ _ Hh) as H. unfold get_feeder in H. exact H.
 Qed.
 
-Lemma end_block_sim p f h u st :
-  mg_hyp p f -> 1 <= h -> inc_keys (m_rounds (st_mem st)) ->
+Lemma end_block_sim p f H0 b h u st :
+  mg_hyp p f -> co_ok p f H0 b (st_mem st) -> 1 <= h -> inc_keys (m_rounds (st_mem st)) ->
   let st' := end_block p h u st in
   let X := end_block (pf p f) h u (stf f st) in
   get_tp (st_store st') (f_token f) = get_tp (st_store X) (f_token f) /\
   zget (m_rounds (st_mem st')) (f_id f) = zget (m_rounds (st_mem X)) (f_id f) /\
   inc_keys (m_rounds (st_mem st')).
 Proof.
-  intros Hh Hh1 Hi. cbv zeta.
+  intros Hh Hco Hh1 Hi. cbv zeta.
   destruct (end_block_shape (pf p f) f h u (stf f st) eq_refl Hh1) as [Snil Ssingle].
   set (force := match u with [] => false | _ => true end) in *.
   (* the multi-feeder side *)
@@ -452,7 +512,9 @@ Proof.
   unfold proj_rf in Hproj. simpl in Hproj.
   assert (Hzin : forall r, In (f_id f, r) (m_rounds (st_mem st)) -> zget (m_rounds (st_mem st)) (f_id f) = Some r)
     by (intros r Hin; exact (inc_keys_zget _ _ _ Hi Hin)).
-  destruct (seal_fold_f p f Hh h force (m_rounds (st_mem st)) (m_rounds (st_mem st)) [] Hi Hi Hzin) as [K1 [K2 K3]].
+  assert (Hco' : forall g r f0, In (g, r) (m_rounds (st_mem st)) -> g <> f_id f -> get_feeder p g = Some f0 -> r_status r = 1 -> f_token f0 <> f_token f).
+  { intros g r f0 Hin Hne Hg Hs. exact (other_feeder _ _ _ _ _ _ _ _ Hco Hg Hne (inc_keys_zget _ _ _ Hi Hin) Hs). }
+  destruct (seal_fold_f p f Hh h force (m_rounds (st_mem st)) (m_rounds (st_mem st)) [] Hi Hi Hco' Hzin) as [K1 [K2 K3]].
   rewrite <- Hproj in K1, K2, K3. simpl in K1, K2, K3.
   unfold prepare_round. assert (Hlt : h <? 1 = false) by (apply Z.ltb_ge; lia). rewrite Hlt.
   pose proof (prepare_fold_rounds p h (p_feeders p) R2 W2 []) as Hprep. simpl m_rounds. simpl m_workers.
@@ -492,38 +554,141 @@ Proof.
       rewrite Hr. reflexivity.
 Qed.
 
-Lemma mg_end_keeps_inv p f b u st :
-  mg_hyp p f -> 0 <= b -> b + 1 < two64 -> mg_inv p f b st -> mg_inv p f (b + 1) (end_block p (b + 1) u st).
+(* ---- feeders sharing f's token stay quiet across EndBlock ---- *)
+Lemma seal_step_key p h force R F g r k :
+  inc_keys R -> (g = k -> r_status r = 2) ->
+  inc_keys (fst (seal_one_rf p h force (R, F) (g, r))) /\ zget (fst (seal_one_rf p h force (R, F) (g, r))) k = zget R k.
 Proof.
-  intros Hh Hb0 Hb1 Hinv.
-  pose proof (end_keeps_inv (pf p f) f b u (stf f st) (ng_hyp_pf _ _ Hh) Hb0 Hb1 (mg_to_ng _ _ _ _ Hinv)) as Hng.
-  destruct Hinv as [_ [_ [Hi _]]].
-  destruct (end_block_sim p f (b + 1) u st Hh ltac:(lia) Hi) as [E1 [E2 E3]].
-  exact (ng_to_mg p f (b + 1) _ _ Hng E1 E2 E3).
+  intros Hi Hk. unfold seal_one_rf. destruct (r_status r =? 1) eqn:Est; [|simpl; auto].
+  apply Z.eqb_eq in Est. assert (Hne : g <> k) by (intro E; specialize (Hk E); lia).
+  destruct (get_feeder p g) as [f0|]; [|simpl; auto].
+  destruct (feeder_ended f0 h || (p_max_nonce p <=? usub h (r_base r)) || force); [|simpl; auto].
+  destruct (feeder_ended f0 h); simpl.
+  - split; [apply inc_keys_zdel; exact Hi | apply zget_zdel_other; intro E; apply Hne; symmetry; exact E].
+  - split; [apply inc_keys_zset; exact Hi | apply zget_zset_other; intro E; apply Hne; symmetry; exact E].
 Qed.
 
-Lemma mg_run_txs_inv p f b : mg_hyp p f -> forall txs st,
-  Forall (fun nt => single_msg (snd nt)) txs -> mg_inv p f b st -> mg_inv p f b (run_txs p st txs).
+Lemma seal_fold_key p h force k : forall l R F,
+  inc_keys R -> (forall r, In (k, r) l -> r_status r = 2) ->
+  zget (fst (fold_left (seal_one_rf p h force) l (R, F))) k = zget R k.
+Proof.
+  induction l as [|[g r0] t IH]; intros R F Hi Hk; [reflexivity|]. rewrite fold_step.
+  destruct (seal_step_key p h force R F g r0 k Hi (fun E => Hk r0 (or_introl (f_equal (fun z => (z, r0)) E)))) as [S1 S2].
+  destruct (seal_one_rf p h force (R, F) (g, r0)) as [R1 F1]. simpl in S1, S2.
+  rewrite (IH R1 F1 S1 (fun r Hin => Hk r (or_intror Hin))). exact S2.
+Qed.
+
+Lemma find_id p g : In g (p_feeders p) -> NoDup (map f_id (p_feeders p)) ->
+  existsb (fun g0 => f_id g0 =? f_id g) (p_feeders p) = true /\ find (fun g0 => f_id g0 =? f_id g) (p_feeders p) = Some g.
+Proof.
+  intros Hin Hnd. split.
+  - apply existsb_exists. exists g. split; [exact Hin | apply Z.eqb_refl].
+  - destruct (find (fun g0 => f_id g0 =? f_id g) (p_feeders p)) as [g1|] eqn:Hf.
+    + apply find_some in Hf. destruct Hf as [H1 H2]. apply Z.eqb_eq in H2. f_equal. exact (nodup_map_inj f_id _ g1 g Hnd H1 Hin H2).
+    + exfalso. pose proof (find_none _ _ Hf g Hin) as H. simpl in H. rewrite Z.eqb_refl in H. discriminate.
+Qed.
+
+(* a feeder that is not responsible at block h (ended, or not started) keeps its entry when it has no round or a
+   closed one *)
+Lemma end_block_quiet_key p g h u st :
+  In g (p_feeders p) -> NoDup (map f_id (p_feeders p)) -> 1 <= h -> inc_keys (m_rounds (st_mem st)) ->
+  feeder_ended g h = true \/ h < f_start g ->
+  match zget (m_rounds (st_mem st)) (f_id g) with None => True | Some r => r_status r = 2 end ->
+  zget (m_rounds (st_mem (end_block p h u st))) (f_id g) = zget (m_rounds (st_mem st)) (f_id g).
+Proof.
+  intros Hin Hnd Hh1 Hi Hinact Hq. unfold end_block.
+  set (force := match u with [] => false | _ => true end).
+  set (m1 := if force then mkMem (fold_left apply_update u (m_vals (st_mem st)))
+                                 (zsum (map snd (fold_left apply_update u (m_vals (st_mem st)))))
+                                 (m_rounds (st_mem st)) (m_workers (st_mem st))
+             else st_mem st).
+  assert (H1 : m_rounds m1 = m_rounds (st_mem st)) by (unfold m1; destruct force; reflexivity).
+  unfold seal_round. rewrite H1.
+  pose proof (seal_fold_proj p h force (m_rounds (st_mem st)) (m_rounds (st_mem st), m_workers m1, [], [])) as Hproj.
+  destruct (fold_left (seal_one p h force) (m_rounds (st_mem st)) (m_rounds (st_mem st), m_workers m1, [], []))
+    as [[[R2 W2] F2] S2] eqn:Hfold.
+  unfold proj_rf in Hproj. simpl in Hproj.
+  assert (Hk : forall r, In (f_id g, r) (m_rounds (st_mem st)) -> r_status r = 2).
+  { intros r Hr. rewrite (inc_keys_zget _ _ _ Hi Hr) in Hq. exact Hq. }
+  pose proof (seal_fold_key p h force (f_id g) (m_rounds (st_mem st)) (m_rounds (st_mem st)) [] Hi Hk) as K.
+  assert (K1 : inc_keys R2).
+  { assert (G : forall l R F, inc_keys R -> inc_keys (fst (fold_left (seal_one_rf p h force) l (R, F)))).
+    { induction l as [|[g0 r0] t IH]; intros R F HR; [exact HR|]. rewrite fold_step.
+      destruct (seal_step_key p h force R F g0 r0 (g0 + 1) HR ltac:(intro; lia)) as [S1 _].
+      destruct (seal_one_rf p h force (R, F) (g0, r0)) as [R1 F1]. exact (IH R1 F1 S1). }
+    specialize (G (m_rounds (st_mem st)) (m_rounds (st_mem st)) [] Hi). rewrite <- Hproj in G. exact G. }
+  rewrite <- Hproj in K. simpl in K.
+  unfold prepare_round. assert (Hlt : h <? 1 = false) by (apply Z.ltb_ge; lia). rewrite Hlt.
+  pose proof (prepare_fold_rounds p h (p_feeders p) R2 W2 []) as Hprep. simpl m_rounds. simpl m_workers.
+  destruct (fold_left (prepare_one p h) (p_feeders p) (R2, W2, [])) as [[R3 W3] Fr3] eqn:Hpf. simpl in Hprep.
+  destruct (prepare_fold_f p h g (p_feeders p) R2 Hnd K1) as [_ P2].
+  destruct (find_id p g Hin Hnd) as [Fe Ff]. rewrite Fe, Ff in P2. rewrite <- Hprep in P2.
+  simpl. rewrite P2.
+  assert (Hskip : forall X, prepare_r p h g X = X).
+  { intro X. unfold prepare_r. destruct Hinact as [He|Hs]; [rewrite He; reflexivity|].
+    assert (h <? f_start g = true) by (apply Z.ltb_lt; exact Hs). rewrite H. rewrite orb_true_r. reflexivity. }
+  rewrite Hskip, zget_sing. exact K.
+Qed.
+
+Lemma co_ok_end_block p f H0 b u st :
+  NoDup (map f_id (p_feeders p)) -> 0 <= b -> b + 1 <= H0 -> inc_keys (m_rounds (st_mem st)) ->
+  co_ok p f H0 b (st_mem st) -> co_ok p f H0 (b + 1) (st_mem (end_block p (b + 1) u st)).
+Proof.
+  intros Hnd Hb Hh Hi Hco g Hin Hne Htok. destruct (Hco g Hin Hne Htok) as [[He Hq]|[Hs Hq]].
+  - left. split; [exact (ended_mono _ _ He)|].
+    assert (H1b : 1 <= b + 1) by lia.
+    rewrite (end_block_quiet_key p g (b + 1) u st Hin Hnd H1b Hi (or_introl (ended_mono _ _ He)) Hq). exact Hq.
+  - right. split; [exact Hs|].
+    assert (Hq' : match zget (m_rounds (st_mem st)) (f_id g) with None => True | Some r => r_status r = 2 end) by (rewrite Hq; exact I).
+    assert (Hlt : b + 1 < f_start g) by lia. assert (H1b : 1 <= b + 1) by lia.
+    rewrite (end_block_quiet_key p g (b + 1) u st Hin Hnd H1b Hi (or_intror Hlt) Hq'). exact Hq.
+Qed.
+
+(* the two invariants together, with the horizon *)
+Definition mgx_inv (p : params) (f : feeder) (H0 b : Z) (st : state) : Prop :=
+  mg_inv p f b st /\ co_ok p f H0 b (st_mem st).
+
+Lemma mg_end_keeps_inv p f H0 b u st :
+  mg_hyp p f -> 0 <= b -> b + 1 < two64 -> b + 1 <= H0 -> mgx_inv p f H0 b st -> mgx_inv p f H0 (b + 1) (end_block p (b + 1) u st).
+Proof.
+  intros Hh Hb0 Hb1 HbH [Hinv Hco].
+  pose proof (end_keeps_inv (pf p f) f b u (stf f st) (ng_hyp_pf _ _ Hh) Hb0 Hb1 (mg_to_ng _ _ _ _ Hinv)) as Hng.
+  destruct Hinv as [_ [_ [Hi _]]].
+  destruct (end_block_sim p f H0 b (b + 1) u st Hh Hco ltac:(lia) Hi) as [E1 [E2 E3]].
+  split; [exact (ng_to_mg p f (b + 1) _ _ Hng E1 E2 E3)|].
+  exact (co_ok_end_block p f H0 b u st (mh_ids _ _ Hh) Hb0 HbH Hi Hco).
+Qed.
+
+Lemma mgx_tx_keeps p f H0 b now st t x st' a ok :
+  mg_hyp p f -> mgx_inv p f H0 b st -> t_msgs t = [x] -> deliver_tx p now st t = (st', a, ok) -> mgx_inv p f H0 b st'.
+Proof.
+  intros Hh [Hinv Hco] Hx Hd. split; [exact (mg_tx_keeps_inv p f H0 b now st t x st' a ok Hh Hco Hinv Hx Hd)|].
+  exact (co_ok_rounds_step p f H0 b _ _ (deliver_tx_rounds_step _ _ _ _ _ _ _ Hd) Hco).
+Qed.
+
+Lemma mg_run_txs_inv p f H0 b : mg_hyp p f -> forall txs st,
+  Forall (fun nt => single_msg (snd nt)) txs -> mgx_inv p f H0 b st -> mgx_inv p f H0 b (run_txs p st txs).
 Proof.
   intro Hh. induction txs as [|[now t] r IH]; intros st Hall Hinv; simpl; [exact Hinv|].
   inversion Hall as [|? ? [x Hx] Hr]; subst. apply IH; [exact Hr|].
   destruct (deliver_tx p now st t) as [[st' a] ok] eqn:Hd. simpl.
-  exact (mg_tx_keeps_inv p f b now st t x st' a ok Hh Hinv Hx Hd).
+  exact (mgx_tx_keeps p f H0 b now st t x st' a ok Hh Hinv Hx Hd).
 Qed.
 
-Lemma mg_run_blocks_inv p f : mg_hyp p f -> forall bl b st,
-  0 <= b -> b + Z.of_nat (List.length bl) < two64 ->
+Lemma mg_run_blocks_inv p f H0 : mg_hyp p f -> forall bl b st,
+  0 <= b -> b + Z.of_nat (List.length bl) < two64 -> b + Z.of_nat (List.length bl) <= H0 ->
   Forall (fun bk => Forall (fun nt => single_msg (snd nt)) (fst bk)) bl ->
-  mg_inv p f b st -> mg_inv p f (b + Z.of_nat (List.length bl)) (run_blocks p b st bl).
+  mgx_inv p f H0 b st -> mgx_inv p f H0 (b + Z.of_nat (List.length bl)) (run_blocks p b st bl).
 Proof.
-  intro Hh. induction bl as [|[txs u] r IH]; intros b st Hb0 Hb1 Hall Hinv.
+  intro Hh. induction bl as [|[txs u] r IH]; intros b st Hb0 Hb1 HbH Hall Hinv.
   - simpl. rewrite Z.add_0_r. exact Hinv.
   - inversion Hall as [|? ? Htxs Hr]; subst. simpl fst in Htxs.
     change (run_blocks p b st ((txs, u) :: r)) with (run_blocks p (b + 1) (end_block p (b + 1) u (run_txs p st txs)) r).
     replace (b + Z.of_nat (List.length ((txs, u) :: r))) with (b + 1 + Z.of_nat (List.length r)) by (simpl List.length; lia).
     assert (Hlen : b + 1 + Z.of_nat (List.length r) < two64) by (simpl List.length in Hb1; lia).
-    apply IH; [lia | exact Hlen | exact Hr|].
-    apply mg_end_keeps_inv; [exact Hh | exact Hb0 | lia|]. apply mg_run_txs_inv; assumption.
+    assert (HlenH : b + 1 + Z.of_nat (List.length r) <= H0) by (simpl List.length in HbH; lia).
+    apply IH; [lia | exact Hlen | exact HlenH | exact Hr|].
+    apply mg_end_keeps_inv; [exact Hh | exact Hb0 | lia | lia|]. apply mg_run_txs_inv; assumption.
 Qed.
 
 Lemma mg_inv_nogap_state p f b st :
